@@ -302,7 +302,7 @@ pub fn gen_cfg_wide(rng: &mut Rng, thorough: bool) -> GenCfg {
 }
 
 pub fn run(args: &Args, rec: &mut Recorder) {
-    rec.rule = "evaluation = one accepted document (or API-built model) taken through K load->write cycles (K=3 quick, 6 thorough) with model equality and byte equality checked in every cycle; distinct_nontrivial = distinct input texts by content hash with at least 5 elements".into();
+    rec.rule = "evaluation = one accepted document (or API-built model) taken through K load->write cycles (K=3 quick, 6 thorough) with model equality and byte equality checked in every cycle; one case in eight also through K file cycles write(path, banner) / load(path); one in four after public-API edits (push, field edits, remove, swap_remove, rename, removal of whole lists and of children, negative values); distinct_nontrivial = distinct input texts by content hash with at least 5 elements".into();
     rec.assumptions.push("floats are finite (the format has no spelling for inf/NaN); model equality is the crate's PartialEq".into());
     let g = Grammar::load_default();
     let k = if args.thorough { 6 } else { 3 };
